@@ -9,16 +9,25 @@ ASSUMPTIONS = [
     "pairing: the library client (send_initialize) is wired to the library server through a pipe stub that hands every written request to handle_message and returns its response",
 ]
 STUBS = ["pipe stub (client write -> server handle_message -> client receive)"]
-OUTSIDE = ["requested version strings longer than 3 characters other than well-formed dates (all 10^8 dddd-dd-dd strings are covered)", "client supported lists longer than 2 in the pairing"]
+OUTSIDE = ["for unconstrained strings of length 10-12 the unchanged tree confirms in seconds, but a tree that parses the version (regex + int()) makes these obligations inconclusive; the 'within one edit of a supported version' family is the bounded region that stays decidable then", "requested version strings longer than 3 characters other than well-formed dates (all 10^8 dddd-dd-dd strings are covered)", "client supported lists longer than 2 in the pairing"]
 
 
 def obligations(tier, ctx):
     obs = [
         Ob(name="arbitrary", params=[("v", "str")], pre=["len(v) <= 3"], call="H.init_version(0, v, 0)", backend="F", timeout=240, family="requested version"),
         Ob(name="wellformed_date", params=[("v", "str")], pre=date_pre("v"), call="H.init_version(0, v, 0)", backend="F", timeout=300, family="requested version"),
+        Ob(name="any_len10", params=[("v", "str")], pre=["len(v) == 10"], call="H.init_version(0, v, 0)", backend="F", timeout=300, family="requested version"),
+        Ob(name="any_len11", params=[("v", "str")], pre=["len(v) == 11"], call="H.init_version(0, v, 0)", backend="F", timeout=300, family="requested version"),
+        Ob(name="any_len_le12", params=[("v", "str")], pre=["len(v) <= 12"], call="H.init_version(0, v, 0)", backend="F", timeout=300, family="requested version"),
+        Ob(name="near_append", params=[("i", "int"), ("c", "str")], pre=["0 <= i <= 2", "len(c) <= 1"], call="H.near_version(i, 0, 0, c)", backend="F", timeout=300, family="requested version within one edit of a supported one"),
+        Ob(name="near_prepend", params=[("i", "int"), ("c", "str")], pre=["0 <= i <= 2", "len(c) <= 1"], call="H.near_version(i, 1, 0, c)", backend="F", timeout=300, family="requested version within one edit of a supported one"),
         Ob(name="supported", params=[("i", "int")], pre=["0 <= i <= 2"], call="H.init_version(1, '', i)", backend="F", timeout=120, family="requested version"),
         Ob(name="nonstring", params=[("k", "int")], pre=["2 <= k <= 5"], call="H.init_version(k, '', 0)", backend="F", timeout=120, family="requested version"),
     ]
+    for i in ((0,) if tier == "quick" else (0, 1, 2)):
+        for k in range(10):
+            obs.append(Ob(name=f"near_subst_v{i}_k{k}", params=[("c", "str")], pre=["len(c) == 1"], call=f"H.near_version({i}, 2, {k}, c)", backend="F", timeout=200,
+                          family="requested version within one edit of a supported one"))
     L = 1 if tier == "quick" else 2
     for n in (1, 2):
         vs = [f"v{i}" for i in range(n)]
